@@ -389,3 +389,19 @@ package rdb
 //@ before RDB.ExecuteBatch#0 assert[complete] dbWrites == old(dbWrites)
 //@ loop 0 invariant scangen >= 1 && dbWrites == old(dbWrites) && batch != nil && codec != nil
 //@ loop 0 invariant[inv] batchInv(batch)
+
+// ---- C05: opening a database and catching up with the primary (cgo: assumed) -----------------------------------
+// ghost trace of the database files opened (by any driver) and of the catch-ups performed
+//@ ghostvar opens int
+//@ ghostvar openedPath str
+//@ ghostvar catchups int
+//@ func NewReader
+//@ trusted
+//@ updates opens, openedPath
+//@ ensures opens == old(opens) + 1 && openedPath == path
+//@ ensures err == nil ==> result0 != nil && fresh(result0)
+//@ ensures err != nil ==> result0 == nil
+//@ func RDB.CatchWithPrimary
+//@ trusted
+//@ updates catchups
+//@ ensures catchups == old(catchups) + 1
